@@ -8,7 +8,8 @@ CHECK = {
                      "ClusterVerif/Lemmas/C18SyncClusterA.lean", "ClusterVerif/Lemmas/C18SyncClusterB.lean",
                      "ClusterVerif/Lemmas/C18SyncClusterC.lean", "ClusterVerif/Lemmas/C18SyncClusterR.lean",
                      "ClusterVerif/Model/C18SyncProgs2.lean", "ClusterVerif/Model/C18Inventory.lean", "ClusterVerif/Lemmas/C18SyncMoreA.lean",
-                     "ClusterVerif/Lemmas/C18SyncMoreB.lean", "ClusterVerif/Lemmas/C18SyncMoreR.lean", "ClusterVerif/Lemmas/C18SyncClusterS.lean", "ClusterVerif/Model/C18ChanOps.lean"],
+                     "ClusterVerif/Lemmas/C18SyncMoreB.lean", "ClusterVerif/Lemmas/C18SyncMoreR.lean", "ClusterVerif/Lemmas/C18SyncClusterS.lean", "ClusterVerif/Model/C18ChanOps.lean",
+                     "ClusterVerif/Model/C18SyncOps.lean", "ClusterVerif/Model/C18Torn.lean"],
     "search_seeds": {"quick": 1, "thorough": 2},
     "rule": "n = seconds of soak per structure (alerts, window, metrics store+checker, operation tracker, stateless tracker, informers, crdt batching, "
             "tracker / crdt / Cluster life cycles: Shutdown racing the API — every other tracker / crdt generation with queues of 1 / 2 items so that the "
@@ -18,7 +19,8 @@ CHECK = {
             "and, for alerts/window, compared with the sequential model; non-trivial = non-empty list / soak with operations; distinct by case line",
     "trusted_base": ["Go race detector (happens-before, reports only races that occur in the run)",
                      "harness/extract_c18: syntactic lockset extractor (go/ast, no type checker), its list of designated fields and mutexes; chanops.go (classification of channel sends / closes) and "
-                     "Model/C18ChanOps.lean chanSites (hand-written map from a source site to the thread that transcribes it)",
+                     "Model/C18ChanOps.lean chanSites (hand-written map from a source site to the thread that transcribes it); syncops.go (receives, <-x.Done(), WaitGroup calls recognised by the receiver NAME containing wg, go statements) and "
+                     "Model/C18SyncOps.lean syncSites (hand-written map, 21 of its 50 sites reviewed as transcribed by no program)",
                      "fake IPFSConnector/PinTracker RPC services, StoreMonitor alerts channel, verif_export.go (VerifNewCluster, VerifAlertsHandler), verif_export_c18.go (VerifC18Prepare/Start: no-op tracer, peer manager, NewCluster's ready()+run() goroutine)",
                      "Model/C18SyncProgs.lean, Model/C18SyncProgs2.lean: hand transcription of the shutdown / queueing / informer / checker protocols (tied to the source text by rfl only)",
                      "Model/C18Inventory.lean reviewedSyncFields: the review that Cluster.paMux, the two WaitGroups and crdt's sync.Map guard no field"],
@@ -64,12 +66,12 @@ META = {
             "once the workers / the consumer are gone, closing the queue panics, dropped locks are racy); gen_sync_inventory_reviewed: every struct field of a sync type in the analysed packages is a "
             "designated mutex of the lock table or individually reviewed, so a new mutex fails closed; gen_chan_ops_match_model: every channel send / close of the anchored files (go/ast: blocking, "
             "select-with-default, close) is a known site of a transcribed program whose instruction has the same shape (default branch / plain send / close present) — a semantic tie, with "
-            "default_never_blocks proved for every program and state; cluster_shutdown_safe_loop: the Cluster scenario with watchPeers' loop as written is certified too; "
+            "default_never_blocks proved for every program and state; (round 8c) gen_sync_ops_match_model: every receive, <-ctx.Done() arm, WaitGroup Add (with its argument) / Done / Wait and go statement of the anchored files (68 rows, with multiplicity per function) is a known site, and where a program transcribes it the thread has that operation in the shape of the row (arm of a select without / with default, plain statement) — a new, dropped or re-shaped one fails closed; tracker_wg_never_added (spt.wg.Wait() waits for nobody: the fact the tracker programs assume); getter_copy_under_lock_whole: in a small-step model of one mutex and a multi-field value, a getter that copies inside one critical section returns fields of ONE value, the one present at its acquisition, for every continuation in which writes hold the mutex (the table discipline), getter_without_lock_tears refutes the unlocked getter, gen_copy_getters_present ties it to the regenerated escape facts; cluster_shutdown_safe_loop: the Cluster scenario with watchPeers' loop as written is certified too; "
             "while the Cluster protocol before that commit is REFUTED (cluster_old_protocol_deadlocks: Shutdown racing ready(), the former finding K18b = what a revert reintroduces; the "
             "soak clusterearly is its run-time oracle) as are three realistic wrong edits of the repaired one; the models are tied to the source by a text snapshot (rfl). "
             "Runtime oracle: -race soaks of the real structures and life cycles with structural checks, watchdog and panic capture; a clean soak proves nothing by itself.",
     "note": "Partial by nature: channel/WaitGroup ordering is proved for three transcribed models only (text-snapshot tie); cross-package aliasing is not covered; the table is "
             "produced by a syntactic extractor (trusted), now summary-based across same-package calls (calling contexts, parameter aliasing, escapes). "
             "Races are only observed, never excluded, by the soaks.",
-    "technique": "Lean 4 lockset/deadlock theorems + decide over extracted interprocedural lock facts, sync-field inventory and channel-operation shapes + small-step interleaving models with exhaustive-exploration certificates + race-detector soak as implementation-side oracle",
+    "technique": "Lean 4 lockset/deadlock theorems + decide over extracted interprocedural lock facts, sync-field inventory, channel-operation and receive / Done / WaitGroup / go-statement shapes + small-step interleaving models with exhaustive-exploration certificates + race-detector soak as implementation-side oracle",
 }
